@@ -143,9 +143,11 @@ CLAIMED = {
              "bytes = Python codec bytes; decoder = canonical decoder on every bit string; round trip; carrier is the least standard width >= n; "
              "sign extension = two's complement for every 1<=n<=c<=64; enum width minimal. Tie: schemas over every type constructor generated with "
              "fcp_cpp, compiled with g++ -std=c++17 (ASan+UBSan) with a generic JSON driver, encoder bytes vs model, decoder vs value, plus one schema "
-             "with every width 1..64 and enum maxima up to 2^63 at their boundary values and the carrier/enum-width functions exhaustively on 1..64 / around powers of two.",
+             "with every width 1..64 and enum maxima up to 2^63 at their boundary values and the carrier/enum-width functions exhaustively on 1..64 / around powers of two; every per-protocol header fcp_<protocol>.h is "
+             "compiled with a driver of its own and must answer like fcp.h.",
         note="'compiles as C++17' is decided by g++ on the sampled schemas, not by a theorem; services (rpc) only compile-checked; values travel "
-             "as JSON (no infinities/NaN); decode of truncated input is outside the property and not modelled.",
+             "as JSON (no infinities/NaN); decode of truncated input is outside the property and not modelled. Recorded finding "
+             "reserved-word-identifiers (names that are C++ keywords are written verbatim) shown on its witness; fixed: fcp_default.h namespace.",
         technique="Lean 4 proof (refinement of the generated codec to the canonical wire format) + compiled-code differential check",
         ref="DESIGN.md section 8, C03"),
     "C13": dict(
